@@ -213,6 +213,9 @@ def points(kinds, rng):
     pts = []
     for i in range(5):
         pts.append([(sa[(i + k) % 5] if kd == "angle" else sl[(i + 2 * k) % 5]) for k, kd in enumerate(kinds)])
+    # many turns: the numeric path must not lose what the symbolic one keeps (1e5 rad is 15 915 turns)
+    pts.append([(1.0e5 if kd == "angle" else 2.0) for kd in kinds])
+    pts.append([(-2.5e5 + 0.5 * k if kd == "angle" else -0.5) for k, kd in enumerate(kinds)])
     for _ in range(NRANDOM[0]):
         pts.append([(rng.uniform(-2 * math.pi, 2 * math.pi) if kd == "angle" else rng.uniform(-10, 10) * 10 ** rng.randint(-3, 3))
                     for kd in kinds])
